@@ -90,6 +90,10 @@ type indexer struct {
 	compactionMutex sync.Mutex
 	rwmutex         sync.RWMutex
 
+	// held while transactions are being indexed; restartIndex takes it to replace
+	// the tree only when no indexing step (of a goroutine it has just stopped) is in flight
+	indexingMutex sync.Mutex
+
 	metricsLastCommittedTrx prometheus.Gauge
 	metricsLastIndexedTrx   prometheus.Gauge
 }
@@ -425,7 +429,15 @@ func (idx *indexer) restartIndex() error {
 	idx.stop()
 	defer idx.resume()
 
+	// the goroutine that has just been stopped may still be in the middle of an
+	// indexing step: let it finish on the tree it started with
+	idx.indexingMutex.Lock()
+	defer idx.indexingMutex.Unlock()
+
 	opts := idx.index.GetOptions()
+
+	// what the readers have already been told is indexed
+	prevTs := idx.index.Ts()
 
 	err := idx.index.Close()
 	if err != nil {
@@ -439,7 +451,28 @@ func (idx *indexer) restartIndex() error {
 
 	idx.index = index
 
-	return err
+	// The index has been reopened from the dump taken when the compaction started:
+	// the transactions indexed while the dump was being written are not in it.
+	// Callers that waited for the indexing of one of them (before or after this
+	// point) would read the older tree as soon as the lock is released, so the
+	// missing transactions are indexed again while the lock is still held.
+	for idx.index.Ts() < prevTs {
+		err = idx.indexSinceUnlocked(idx.index.Ts() + 1)
+		if errors.Is(err, ErrWriteStalling) {
+			_, _, err = idx.index.Flush()
+		}
+		if err != nil {
+			// the indexing goroutine will keep trying from here; in the meantime the
+			// progress reported to the waiters must not be ahead of the tree
+			if idx.wHub != nil {
+				idx.wHub.RecedeTo(idx.index.Ts())
+			}
+			idx.store.logger.Warningf("%v: while catching up index '%s' after compaction", err, idx.store.path)
+			break
+		}
+	}
+
+	return nil
 }
 
 func (idx *indexer) Resume() {
@@ -597,6 +630,13 @@ func (idx *indexer) valBuffer(vLen int) []byte {
 }
 
 func (idx *indexer) indexSince(txID uint64) error {
+	idx.indexingMutex.Lock()
+	defer idx.indexingMutex.Unlock()
+
+	return idx.indexSinceUnlocked(txID)
+}
+
+func (idx *indexer) indexSinceUnlocked(txID uint64) error {
 	ctx, cancel := context.WithTimeout(context.Background(), idx.bulkPreparationTimeout)
 	defer cancel()
 
